@@ -42,6 +42,17 @@ def parse_q(s):
 
 def main(c):
     q = c.quick()
+    seen_cat = {}
+    raw_report = c.report
+
+    def capped_report(key, what, replay=None, found_input=True):
+        """at most 4 reports per category of failing input (scheme / kind): one defect shows on many seeded inputs"""
+        cat = ":".join(key.split(":")[:2])
+        seen_cat[cat] = seen_cat.get(cat, 0) + 1
+        if seen_cat[cat] > 4 and not any(k.get("key") == key for k in c.known):
+            return False
+        return raw_report(key, what, replay, found_input)
+    c.report = capped_report
     tgk = c.cxx("trace_gk", ["trace_gk.cxx"], SUPPORT)
     trk = c.cxx("trace_rk", ["trace_rk.cxx"], SUPPORT, flags=["-DNDEBUG"])
     drv = c.cxx("driver", ["driver.cxx"], SUPPORT)
@@ -69,8 +80,9 @@ def main(c):
               "g++ template instantiation with Sym (base_type<Sym> = double for the GK tracer)",
               "agreement Sym trace vs double instantiation on seeded inputs (GK: 200, RK: 480), relative 1e-13")
 
+    c.log("traced")
     # ---------------------------------------------------------------- loops: which model corresponds to /repo?
-    nloops = c.pick(120, 600)
+    nloops = c.pick(60, 400)
     rc, out, err = c.run([drv, "loops", str(c.seed), str(nloops)])
     if rc != 0:
         c.report("driver:loops", "driver failed: " + err[-400:], {"stderr": err[-2000:]}, False)
@@ -86,16 +98,19 @@ def main(c):
             loops.append((t[1], fl(t[2]), fl(t[3]), fl(t[4]), script, res))
         elif t[0] == "FIXED":
             fixed.append((t[1], fl(t[2]), fl(t[3]), fl(t[4]), fl(t[6])))
-    cases = ["From Coq Require Import QArith List.\nFrom C12 Require Import C12Model.\nImport ListNotations.\n"]
+    cases = ["From Coq Require Import QArith List.\nFrom C12 Require Import C12Model.\nImport ListNotations.\n"
+             "Definition qz (x : Q) := (Qnum x, Zpos (Qden x)).\n"
+             "Definition showa (r : option (Q * Q * nat)) := match r with Some (a, b, n) => Some (qz a, qz b, n) | None => None end.\n"
+             "Definition showf (r : option Q) := match r with Some a => Some (qz a) | None => None end.\n"]
     for (nm, ti, tf, dt0, script, res) in loops:
         fa, fr = factors[nm]
-        orc = [(ch == "1") for ch in script] + [True] * 40
+        orc = [(ch == "1") for ch in script] + [True] * 16
         ol = "[" + "; ".join("(%s, %s)" % ("true" if a else "false", qlit(fa if a else fr)) for a in orc) + "]"
         for cl in ("false", "true"):
-            cases.append("Eval vm_compute in (adapt_iterate_Q %s %s %s %s %s)." % (cl, ol, qlit(ti), qlit(tf), qlit(dt0)))
+            cases.append("Eval vm_compute in showa (adapt_iterate_Q %s %s %s %s %s)." % (cl, ol, qlit(ti), qlit(tf), qlit(dt0)))
     for (nm, b, e, h, r) in fixed:
-        cases.append("Eval vm_compute in (fixed_exe_Q 400 %s %s %s)." % (qlit(h), qlit(b), qlit(e)))
-        cases.append("Eval vm_compute in (fixedc_exe_Q 400 %s %s %s)." % (qlit(h), qlit(b), qlit(e)))
+        cases.append("Eval vm_compute in showf (fixed_exe_Q 400 %s %s %s)." % (qlit(h), qlit(b), qlit(e)))
+        cases.append("Eval vm_compute in showf (fixedc_exe_Q 400 %s %s %s)." % (qlit(h), qlit(b), qlit(e)))
     rc, mout, merr = c.coq_eval(["C12Model.v"], "\n".join(cases))
     if rc != 0:
         raise RuntimeError("model evaluation failed: " + merr[-2000:])
@@ -105,16 +120,20 @@ def main(c):
     def close(a, b, s):
         return abs(a - b) <= 1e-12 * max(1.0, abs(s), abs(a), abs(b))
 
+    def ints(v):
+        return [int(x) for x in re.findall(r"-?\d+", v)]
+
     def parse_adapt(v):
         if v.startswith("None"):
             return None
-        m = re.match(r"Some\s*\((.*),\s*(.*),\s*(\d+)%?n?a?t?\)$", v, flags=re.S)
-        return (float(parse_q(m.group(1))), float(parse_q(m.group(2))), int(m.group(3)))
+        n = ints(v)
+        return (float(F(n[0], n[1])), float(F(n[2], n[3])), n[4])
 
     def parse_fixed(v):
         if v.startswith("None"):
             return None
-        return float(parse_q(v[4:].strip()))
+        n = ints(v)
+        return float(F(n[0], n[1]))
     k = 0
     match = {"adapt": {"false": 0, "true": 0}, "fixed": {"false": 0, "true": 0}}
     mismatch = {"adapt": {"false": [], "true": []}, "fixed": {"false": [], "true": []}}
@@ -162,13 +181,15 @@ def main(c):
     c.trusted("hand-written Gallina models of the time loops (C12Model.v) -- tied to /repo by differential execution on scripted "
               "acceptance/rejection sequences (exact on Q vs double, 1e-12)")
 
+    c.log("loop models:", variant)
     # ---------------------------------------------------------------- Coq
-    files = [gen_gk, gen_rk, "C12Spec.v", "C12Model.v", "C12Proofs.v", "Properties_C12.v"]
+    files = [gen_gk, gen_rk, "C12Spec.v", "C12Model.v", "C12LoopProofs.v", "C12Proofs.v", "Properties_C12.v"]
     files.append("Properties_C12_fixed_exact.v" if variant.get("fixed") == "clamped" else "Properties_C12_fixed_refuted.v")
     files.append("Properties_C12_adapt_exact.v" if variant.get("adapt") == "clamped" else "Properties_C12_adapt_refuted.v")
     res = None
     if trace_ok:
         res = c.coq(files, timeout=900)
+    c.log("coq done", None if res is None else [(f[0], f[2]) for f in res.files])
     # ---------------------------------------------------------------- the real code against the property itself
     ngk = c.pick(160, 1500)
     rc, out, err = c.run([drv, "gk", str(c.seed), str(ngk)])
@@ -258,8 +279,9 @@ def main(c):
             continue
         y, cov, tend = fl(t[i + 1]), fl(t[i + 2]), fl(t[i + 3])
         span = max(1.0, abs(ti), abs(tf), abs(tend))
-        # (1) exactness: whatever time was reached, y is the exact solution there
-        reached = ti + cov
+        # (1) exactness: whatever time was reached, y is the exact solution there (fixed step: the time the integrator
+        # reports; adaptive: the time covered, measured by the second component y2' = 1)
+        reached = tend if fam == "fixed" else ti + cov
         exact = y0 + float(poly_int(cs, ti, reached))
         scale = abs(y0) + poly_scale(cs, ti, reached) + 1.0
         if not abs(y - exact) <= 1e-10 * scale:
@@ -269,7 +291,7 @@ def main(c):
                      {"scheme": nm, "coefficients_low_first": cs, "ti": ti, "tf": tf, "h": h, "eps": eps, "y0": y0, "y": y, "time_reached": reached,
                       "exact": exact, "how": "props/C12/driver.cxx rk"}, True)
         # (2) final time
-        at_end = abs(reached - tf) <= 1e-12 * span and abs(tend - tf) <= 1e-12 * span
+        at_end = abs(reached - tf) <= 1e-12 * span
         if tag == "RKFINAL":
             if round(h, 6) in CANON_H and not at_end:
                 c.report("final-time:%s:%g" % (nm, h),
@@ -301,6 +323,9 @@ def main(c):
             c.notes.append("proof obligations failed: %s; concrete failing inputs reported" % [f[2] or f[3][:80] for f in res.failed])
         else:
             c.coq_failures(res, None)
+    extra = {k: n - 4 for k, n in seen_cat.items() if n > 4}
+    if extra:
+        c.notes.append("further failing inputs of the same categories not reported individually: %s" % extra)
     if not trace_ok and not c.violations:
         c.report("trace", "the tracers could not read a rule off /repo's code: " + "; ".join(c.notes)[-600:], {"notes": c.notes}, False)
 
